@@ -19,6 +19,7 @@ import IsoVerif.Driver.C11Align
 import IsoVerif.Driver.C11Assign
 import IsoVerif.Driver.C11Graph
 import IsoVerif.Driver.C11BedCorr
+import IsoVerif.Driver.C11MonoNovel
 import IsoVerif.Driver.C11AssignMirror
 
 namespace IsoVerif.Driver.C11
@@ -337,6 +338,7 @@ def ops : List (String × Handler) :=
   ++ IsoVerif.Driver.C11Assign.ops
   ++ IsoVerif.Driver.C11Graph.ops
   ++ IsoVerif.Driver.C11BedCorr.ops
+  ++ IsoVerif.Driver.C11MonoNovel.ops
   ++ IsoVerif.Driver.C11AssignMirror.ops
 
 end IsoVerif.Driver.C11
